@@ -264,7 +264,9 @@ def check_front_end(res: Res, mode: str, o: int, front: str, fmt: str) -> None:
     from vf.frontends import cli_inprocess, file_api, image_of_ips
 
     a = textbook(o, mode)
-    src = f"*={a:#08x}\n.db 0x5A, 0xA5\n"
+    # another position first (a byte at offset 0x40), then the offset under test: offset 0 is an offset like any other, also as a later position
+    o2 = 0x40 if o not in (0x3F, 0x40) else 0x80
+    src = f"*={textbook(o2, mode):#08x}\n.db 0x11\n*={a:#08x}\n.db 0x5A, 0xA5\n"
     wit = {"kind": "front_end", "mode": mode, "o": o, "front": front, "fmt": fmt}
     res.case(("front", mode, o, front, fmt))
     res.count(f"front_end_agreement[{front} {fmt}]")
@@ -273,9 +275,9 @@ def check_front_end(res: Res, mode: str, o: int, front: str, fmt: str) -> None:
     if not fr.failed and fr.out is not None:
         if fmt == "patch":
             img, _ = image_of_ips(fr.out)
-            got = img.read(o, 2) if img is not None else None
+            got = img.read(o, 2) if img is not None and img.read(o2, 1) == b"\x11" and img.written() == 3 else None
         else:
-            got = fr.out[o:o + 2] if len(fr.out) == o + 2 else None
+            got = fr.out[o:o + 2] if len(fr.out) == max(o + 2, o2 + 1) and fr.out[o2:o2 + 1] == b"\x11" else None
     if got != b"\x5a\xa5":
         res.violate("assembler-disagrees", f"{front} {fmt} -m {mode}: `*={a:#x}` (= rom_to_snes({o:#x}, {mode})) did not put its bytes at file offset {o:#x} "
                     f"(status {fr.status} {fr.exc}, output {'missing' if fr.out is None else str(len(fr.out)) + ' bytes'})", wit)
@@ -313,8 +315,12 @@ def check_rel(res: Res, base: int, lo: int, hi: int) -> None:
 
     wit = {"kind": "rel", "base": base, "lo": lo, "hi": hi}
     res.case(("rel", base, lo, hi))
+    # the two bytes come as bytes, or as a slice of a ROM image held in a bytearray / seen through a memoryview
+    form = (base + lo + hi) % 4
+    raw = bytes([lo, hi]) if form < 2 else bytearray([0, lo, hi, 0])[1:3] if form == 2 else memoryview(bytes([9, lo, hi]))[1:3]
+    res.see("pointer_buffer_kinds", type(raw).__name__)
     try:
-        got = formulas.base_relative_16bits_pointer_formula(base)(bytes([lo, hi]))
+        got = formulas.base_relative_16bits_pointer_formula(base)(raw)
     except Exception as e:  # noqa: BLE001
         res.violate("pointer-raises", f"base_relative_16bits_pointer_formula({base:#x})({lo:02x}{hi:02x}) raised {e!r}", wit)
         return
